@@ -28,8 +28,10 @@ func getVarIntSize(value int) int {
 		size = 1 // unit8
 	} else if value <= 0xFFFF {
 		size = 3 // byte + uint16
-	} else {
+	} else if uint64(value) <= 0xFFFFFFFF {
 		size = 5 // byte + uint32
+	} else {
+		size = 9 // byte + uint64
 	}
 	return int(size)
 }
